@@ -390,6 +390,26 @@ def f(ctx):
     ctx.ob("all %d shutdown cells of send_message choose NON" % rows, True, fi, fi.node, construct="send_message during shutdown")
 
 
+@R.clause("C18.h", "other contexts are unaffected: the tables that shutdown drains and retires belong to the instance (created in __init__, no class-level container shared between contexts)")
+def h_instance_state(ctx):
+    """Added after an independently written breaking change moved outgoing_requests / incoming_requests into
+    class-level `{}` defaults: every TokenManager of the process shared them, and shutting one (idle) context down
+    failed the requests and cancelled the handlers of all others."""
+    for clsname, fields in (("tokenmanager.TokenManager", ("outgoing_requests", "incoming_requests")),
+                            ("messagemanager.MessageManager", ("_active_exchanges", "_backlogs", "_recent_messages", "_piggyback_opportunities"))):
+        ci = ctx.prog.cls(clsname)
+        init = ci.methods.get("__init__")
+        ctx.need(init is not None, "%s.__init__ missing" % clsname)
+        for f in fields:
+            st = [n for n in walk_no_nested(init.node) if isinstance(n, (ast.Assign, ast.AnnAssign)) and any(chain(t) == "self." + f for t in (n.targets if isinstance(n, ast.Assign) else [n.target])) and n.value is not None]
+            fresh = len(st) >= 1 and all(isinstance(n.value, (ast.Dict, ast.List, ast.Set)) or (isinstance(n.value, ast.Call) and chain(n.value.func) in ("dict", "list", "set", "collections.OrderedDict")) for n in st)
+            ctx.ob("%s.%s is created afresh for every instance" % (clsname.split(".")[-1], f), fresh, init, st[0] if st else init.node,
+                   construct="%s.__init__: self.%s" % (clsname.split(".")[-1], f))
+            shared = ci.attrs.get(f)
+            ctx.ob("%s.%s has no class-level container shared between instances" % (clsname.split(".")[-1], f), shared is None or isinstance(shared, ast.Constant), None, None,
+                   construct="class %s: %s = %s" % (clsname.split(".")[-1], f, stmt_text(shared) if shared is not None else "<no class attribute>"))
+
+
 F_MM = "aiocoap/messagemanager.py"
 R.seed("C18.d", F_MM, "        self._active_exchanges = None\n", "        self._active_exchanges = None\n        self._recent_messages.clear()\n", "de-duplication entries cleared while their pop-without-default expiry timers stay armed: KeyError in the loop after shutdown")
 F_TM = "aiocoap/tokenmanager.py"
@@ -411,3 +431,6 @@ R.seed("C18.e", F_TM, "                \"Internal shutdown sequence msismatch: e
 R.seed("C18.f", F_MM, "            if self._active_exchanges is None:\n                # during shutdown, this is all we can do\n                message.mtype = NON", "            if self._active_exchanges is None:\n                # during shutdown, this is all we can do\n                message.mtype = CON", "CON during shutdown")
 
 R.seed("C18.g", F_TM, "            (pipe, stop) = self.incoming_requests.pop(key)\n            stop()\n", "            (pipe, stop) = self.incoming_requests[key]\n", "overridden request neither removed nor stopped before the new entry is stored")
+
+R.seed("C18.h", F_TM, "class TokenManager(interfaces.RequestInterface, interfaces.TokenManager):\n", "class TokenManager(interfaces.RequestInterface, interfaces.TokenManager):\n    outgoing_requests = {}\n    incoming_requests = {}\n", "class-level tables (shared by every context as soon as __init__ stops shadowing them)")
+R.seed("C18.h", F_TM, "        self.outgoing_requests = {}\n", "        self.outgoing_requests = type(self)._shared_outgoing\n", "table shared between all token managers")
